@@ -158,7 +158,7 @@ def judge_c05(d):
 
 
 PROPS["C05"] = {
-    "lean_modules": ["P2.Props.C05"],
+    "lean_modules": ["P2.Props.C05", "P2.Props.C05b"],
     "audit_module": "P2.Audit.C05",
     "harness_prop": "c05",
     "profile": "release",
@@ -340,7 +340,7 @@ PROPS["C02"] = {
 }
 
 PROPS["C08"] = {
-    "lean_modules": ["P2.Props.C03", "P2.Props.C01"],
+    "lean_modules": ["P2.Props.C03", "P2.Props.C01", "P2.Props.C08b"],
     "audit_module": "P2.Audit.C08",
     "harness_prop": "c08",
     "profile": "release",
